@@ -1304,3 +1304,24 @@ def run_X01(ctx):
         "BackendReqHandler and FrontendReqHandler are model-checked (nothing reaches the wire / the handler while failed) and replayed on the "
         "real endpoints; TLC compares result, errno (request servers), bytes received by the peer, whether the pending request was consumed "
         "and whether the handler ran", ASSUME_COMMON, viol)
+
+
+def run_X02(ctx):
+    """Session ownership (SET_OWNER / RESET_OWNER) in the daemon's handler (Ownership.tla)."""
+    hist = ctx.tlc_mc("MC_Ownership", "MC_Ownership")
+    step = {"negotiate": dict(op="negotiate", feats=[30], pf=[0, 1, 3, 5, 9, 13, 15]),
+            "set_owner": dict(op="raw", c=3, body="", nfds=0, has_reply=False, hk="set_owner"),
+            "reset_owner": dict(op="raw", c=4, body="", nfds=0, has_reply=False, hk="reset_owner"),
+            "enable": dict(op="set_vring_enable", q=0, en=True), "reconnect": dict(op="reconnect")}
+    cases = [dict(nq=1, masks=[1], vring="rwlock" if i % 2 else "mutex", adapter=("arc", "mutex", "rwlock")[i % 3],
+                  steps=[dict(step[a]) for a in c["steps"]]) for i, c in enumerate(hist)]
+    cases = replay_or(ctx, "daemon", cases)
+    tr = ctx.harness("daemon", cases, shards=8)
+    viol = ctx.tlc_tv("TV_Ownership", tr, "daemon")
+    ctx.count_distinct(tr, lambda e: (e.get("op"), e.get("letter", {}).get("hk"), e.get("status")), lambda e: e.get("ev") == "step")
+    ctx.exhaustive = True
+    return ctx.finish("model_checking",
+        "Ownership.tla: all histories of depth 6 over {negotiate, SET_OWNER, RESET_OWNER, SET_VRING_ENABLE, reconnect} are model-checked "
+        "(at most one owner at a time) and replayed on a real daemon; TLC compares the acknowledgement / end of connection the frontend "
+        "observes for every letter with the model (claim while owned refused; release forgets the acknowledged features in the handler "
+        "but not in the connection's request server; the handler state survives connections)", ASSUME_COMMON, viol)
